@@ -68,6 +68,12 @@ def run(ctx):
     t = ctx.tier == "thorough"
     rnd = random.Random(ctx.seed)
     res = ctx.tlc_must_pass("Topology", "Topology_thorough.cfg" if t else "Topology_quick.cfg", workers=4, timeout=1500, name="topology")
+    # the heartbeat loop of a backend connection: an answering peer is never given up, a silent one within idle + interval +
+    # timeout (the bound the driver's mute fault waits for); with interval = idle timeout the first claim fails (C20's rule)
+    ctx.tlc_must_pass("Heartbeat", "Heartbeat_ok.cfg", workers=2, timeout=300, name="heartbeat")
+    hb = ctx.tlc("Heartbeat", "Heartbeat_badconfig.cfg", workers=2, timeout=300, count=False, name="heartbeat-interval-equals-idle")
+    if not hb.violated:
+        raise core.Inconclusive("Heartbeat.tla no longer shows why the heartbeat interval must be below the idle timeout")
     # unbounded in the number of faults and in the interleaving: TopologyInd.IndInv is inductive (Apalache), holds
     # initially and implies QuiescentConverged; with the hazard switch the induction step must fail
     ind = {}
